@@ -17,6 +17,47 @@ def req_term(sym):
     return "QDecrypt (%s)" % {"g": "RG %s %s" % (a, b), "bad": "RBad %s %s" % (a, b), "none": "RNone"}[v]
 
 
+PART = {"a": 1, "bb": 2}
+
+
+def property_monitor(c):
+    """The property's own clauses on one stream (responses: 0 session-ok, 1 encrypted, 100+p decrypted payload p, 3 error)."""
+    sess = None          # partition of the successful get-session
+    attempted = False    # a get-session (successful or rejected) has been handled on this stream
+    for i, (q, o) in enumerate(zip(c["reqs"], c["obs"])):
+        if q.startswith("gs:"):
+            first, attempted = not attempted, True
+            if not first:
+                if o != 3:
+                    return "request %d: a second get-session was not answered with an error response" % i
+            elif q[3:] and o == 0:
+                sess = q[3:]
+            elif q[3:] and o != 0:
+                return "request %d: get-session for a valid partition failed" % i
+            elif not q[3:] and o != 3:
+                return "request %d: get-session with an empty partition id was not refused" % i
+        elif q.startswith("enc:"):
+            if sess is None and o != 3:
+                return "request %d: encrypt before a successful get-session was not answered with an error response" % i
+            if sess is not None and o != 1:
+                return "request %d: encrypt on an established session failed" % i
+        elif q.startswith("dec:"):
+            _, a, b, v = q.split(":")
+            if sess is None:
+                if o != 3:
+                    return "request %d: decrypt before a successful get-session was not answered with an error response" % i
+            elif v == "g" and PART.get(sess) == int(a):
+                if o != 100 + int(b):
+                    return "request %d: a genuine record of the session's partition did not decrypt to its payload" % i
+            elif o != 3:
+                return "request %d: a foreign, corrupt or empty record was not answered with an error response (got %d)" % (i, o)
+        elif o != 3:
+            return "request %d: an empty request was not answered with an error response" % i
+    if len(c["obs"]) != len(c["reqs"]):
+        return "%d requests received %d responses" % (len(c["reqs"]), len(c["obs"]))
+    return None
+
+
 def main(tier, seed, replay):
     ck = Check("C19", tier, seed)
     ck.coq_theorems()
@@ -24,6 +65,11 @@ def main(tier, seed, replay):
     cases = envcheck.run_harness(ck, "srv", runs)
     if cases is None:
         return ck.finish()
+    for c in cases:
+        if not c.get("viol"):
+            m = property_monitor(c)
+            if m:
+                c["viol"] = [m]
     viol = [c for c in cases if c.get("viol")]
     terms = ["([%s], [%s])" % ("; ".join(req_term(s) for s in c["reqs"]), "; ".join(str(o) for o in c["obs"])) for c in cases]
     bad, errs, dt = vlib.coq_mismatches("c19", "From Asherah Require Import Base.Str Server.Stream Cases.C19Run.",
